@@ -65,8 +65,39 @@ def diff_obs(real: dict, model: dict, fields: Iterable[str] = FIELDS_ALL, unorde
         if nr.get(f) != nm.get(f):
             if f == "trace" and unordered_trace and sorted(map(json.dumps, nr.get(f) or [])) == sorted(map(json.dumps, nm.get(f) or [])):
                 continue
+            if unordered_trace:
+                # a set built by a coercer (`setFromList`) is iterated in CPython's hash order, which the model
+                # cannot know: (a) when an exception cuts the walk short, how many callbacks ran before it is
+                # order-dependent; (b) which of two equal-but-distinguishable members (Decimal('-0') / Decimal('0'),
+                # True / 1) survives the merge into the payload set is order-dependent
+                if f == "trace" and "raised" in (real.get("out") or {}) and nr.get("out") == nm.get("out"):
+                    continue
+                if f == "out" and canon_numbers(nr.get(f)) == canon_numbers(nm.get(f)):
+                    continue
             d.append(f)
     return d
+
+
+def canon_numbers(x: Any) -> Any:
+    """numeric values up to Python equality (bool / int / float / Decimal with the same value are one number)"""
+    from fractions import Fraction
+    if isinstance(x, dict):
+        t = x.get("t")
+        try:
+            if t == "bool":
+                return {"t": "num", "v": str(Fraction(int(x["b"])))}
+            if t == "int":
+                return {"t": "num", "v": str(Fraction(x["i"]))}
+            if t == "float" and x.get("k") == "fin":
+                return {"t": "num", "v": str(Fraction(x["m"]) * (Fraction(2) ** x["e"]) * (-1 if x["neg"] else 1))}
+            if t == "decimal" and x.get("k") == "fin":
+                return {"t": "num", "v": str(Fraction(x["c"]) * (Fraction(10) ** x["e"]) * (-1 if x["neg"] else 1))}
+        except Exception:  # noqa
+            pass
+        return {k: canon_numbers(v) for k, v in x.items()}
+    if isinstance(x, list):
+        return [canon_numbers(v) for v in x]
+    return x
 
 
 def outcome_class(obs: dict) -> str:
